@@ -256,6 +256,53 @@ def check_wiring(run, ix):
                    'with the same arguments'))
 
 
+def check_more_wiring(run, ix):
+    """V-R6 / V-R7 (second C09 hunt; repairs f660b9b, 0ab9321).  V-R6: `to_float` defaults to round_fast, which truncates
+    toward zero; every __float__ / __complex__ method of the package that reaches it passes a rounding mode (the
+    interval numbers did not: float(iv.mpf(2**60+129)) was 2**60).  V-R7: in the operand conversion `mpf_convert_rhs` a
+    Python complex goes through `convert` (exact), not through the constructor `mpc(...)`, which rounds both parts to
+    the working precision before the operation (complex(1025, 0) - mpf(1) at 10 bits was 1023)."""
+    n = 0
+    for rel in (CTXPY, 'mpmath/ctx_iv.py'):
+        m = ix.module(rel)
+        for f in m.funcs.values():
+            if f.name not in ('__float__', '__complex__'):
+                continue
+            for c in ast.walk(f.node):
+                if isinstance(c, ast.Call) and norm(c.func).split('.')[-1] in ('to_float', 'mpc_to_complex'):
+                    n += 1
+                    if any(k.arg == 'rnd' for k in c.keywords) or len(c.args) >= 3:
+                        run.ok('V-R6', '%s: `%s` passes a rounding mode' % (f.qualname, norm(c, 60)))
+                    else:
+                        run.fail(F('V-R6', rel, f.qualname, c, 'to_float is called without a rounding mode and truncates '
+                                   'toward zero: the result is not the nearest double'))
+            # the conversion function handed to a helper (self.cast(float, libmp.to_float))
+            for c in ast.walk(f.node):
+                if isinstance(c, ast.Call):
+                    for a in c.args:
+                        if isinstance(a, (ast.Attribute, ast.Name)) and norm(a).split('.')[-1] in ('to_float', 'mpc_to_complex'):
+                            n += 1
+                            run.fail(F('V-R6', rel, f.qualname, c, '`%s` is handed on as a conversion function and will be '
+                                       'called with its default mode round_fast, which truncates toward zero: '
+                                       'float(iv.mpf(2**60 + 129)) is 2**60 instead of 2**60 + 256' % norm(a)))
+    if n < 4:
+        raise AnalysisError('V-R6: only %d float conversions found in __float__ / __complex__ methods' % n)
+    f = ix.func(CTXPY, '_mpf.mpf_convert_rhs')
+    hit = False
+    for i in _walk_own(f.node):
+        if isinstance(i, ast.If) and 'complex_types' in norm(i.test):
+            hit = True
+            rets = [r for b in i.body for r in ast.walk(b) if isinstance(r, ast.Return)]
+            if rets and all(isinstance(r.value, ast.Call) and norm(r.value.func).endswith('.convert') for r in rets):
+                run.ok('V-R7', 'a complex operand is converted exactly: `%s`' % norm(rets[0]))
+            else:
+                run.fail(F('V-R7', CTXPY, f.qualname, rets[0] if rets else i,
+                           'a Python complex operand goes through the rounding constructor: at mp.prec = 10, '
+                           'complex(1025, 0) - mpf(1) is 1023 although 1024 is exact and representable'))
+    if not hit:
+        raise AnalysisError('mpf_convert_rhs: complex branch not found')
+
+
 def run(run, ix, tier):
     run.explanation = (
         'The float conversions are exact because of a handful of agreeing constants and because rounding is left '
@@ -278,6 +325,9 @@ def run(run, ix, tier):
     check_to_float(run, ix)
     check_wiring(run, ix)
     check_pure(run, ix)
+    run.rule('V-R6', floor=4, desc='every __float__ / __complex__ passes a rounding mode to to_float')
+    run.rule('V-R7', floor=1, desc='a Python complex operand of an mpf is converted exactly')
+    check_more_wiring(run, ix)
 
 
 def check_pure(run, ix):
